@@ -71,4 +71,29 @@ def replay_add_table(job):
     return search_add_table(job)
 
 
+
+def search_layout(job):
+    """a few layout rewrites of two fixtures (mixed offset widths, reversed lists, re-chunking)"""
+    import os, sys, warnings
+    sys.path.insert(0, os.path.dirname(os.path.dirname(os.path.abspath(__file__))))
+    from bounded import c06_layout as L, docsnap
+    warnings.simplefilter("ignore")
+    fs = [f for f in docsnap.fixtures() if os.path.basename(f) in ("test-1.numbers", "test-formats.numbers", "test-bullets.numbers")]
+    for f in fs:
+        for v in ("offsets-mixed", "offsets-switched", "lists-reversed", "rechunk-1k", "empty-row-headers"):
+            case = {"path": f, "variant": v, "seed": 1}
+            r = L.run_case(case)
+            if r and not r.get("ok"):
+                return {"violated": True, "detail": r["detail"], "job": {"custom": "replay_layout", "case": case}}
+    return {"violated": False}
+
+
+def replay_layout(job):
+    import os, sys
+    sys.path.insert(0, os.path.dirname(os.path.dirname(os.path.abspath(__file__))))
+    from bounded import c06_layout as L
+    r = L.run_case(job["case"])
+    return {"violated": bool(r and not r.get("ok")), "detail": (r or {}).get("detail", "")}
+
+
 NATIVE = {}
